@@ -528,6 +528,12 @@ inductive AccKind where
   | storeGroup
   /-- `GroupBy(key)`: yields its internal lists of the filled values, one per value of `context[key]` -/
   | groupBy (key : String)
+  /-- `Mean(Split([Sum()] + [Count(name) for name in names]))`: `1 + len(names)` values per `compute()` -/
+  | meanCounts (names : List String)
+  /-- `Vectorize(Mean(Split([Sum()] + (k-1) * [Count()])), dim=2)`: `k` values per `compute()` -/
+  | vecMulti (k : Nat)
+  /-- `SplitIntoBins(Split(k * [Sum()]), Variable(var, ident), [lo, …, hi])`: `k` values per `compute()` -/
+  | sibMulti (var : String) (lo hi : Int) (k : Nat)
   deriving Repr, DecidableEq
 
 /-- state of an accumulator: `_total`/`_sum`, `_count`/`count`, `_cur_context` (`none`: the `{}` that
@@ -578,6 +584,26 @@ def groupAppend (k : Option Value) (x : HItem) : List (Option Value × Tok × Li
   | [] => []
   | g :: rest => if keyEq k g.1 then (g.1, g.2.1, g.2.2 ++ [x]) :: rest else g :: groupAppend k x rest
 
+/-- the loop `for …: yield make(copy.deepcopy(context))` of the multi-valued `compute()`s: `k` values, each
+made from its own deep copy of the object `c` -/
+def yieldCopies (ns : Nat) (c : Tok) (mk : Tok → M HItem) : Nat → M (List HItem)
+  | 0 => pure []
+  | k + 1 => do
+    let d ← copyM ns c
+    let y ← mk d
+    let r ← yieldCopies ns c mk k
+    pure (y :: r)
+
+/-- `Mean.compute`, the loop over `sums[1:]` when they are `(count, {name: count})`: for each a deep copy of the
+current context, updated with `{name: count}` -/
+def yieldCounts (ns : Nat) (c : Tok) (count : Nat) : List String → M (List HItem)
+  | [] => pure []
+  | name :: rest => do
+    let e ← copyM ns c
+    updM e (fun v => .dict (dictSet (ctxOf v) name (.int count)))
+    let r ← yieldCounts ns c count rest
+    pure (mkItem (.int count) (some e) :: r)
+
 /-- `fill(value)` of the accumulators -/
 def accFill (ns : Nat) (k : AccKind) (s : AccSt) (x : HItem) : M AccSt :=
   match k with
@@ -596,6 +622,17 @@ def accFill (ns : Nat) (k : AccKind) (s : AccSt) (x : HItem) : M AccSt :=
   | .vectorize _ => do
     let c ← getCtx ns x
     pure { s with cur := some c }
+  | .vecMulti _ => do
+    let c ← getCtx ns x
+    pure { s with count := s.count + 1, cur := some c }
+  | .meanCounts _ => do
+    let c ← getCtx ns x
+    pure { s with total := s.total + dataInt x, count := s.count + 1, cur := some c }
+  | .sibMulti _ lo hi _ => do
+    let c ← getCtx ns x
+    let d ← copyM ns c
+    if dataInt x < lo || dataInt x ≥ hi then pure s
+    else pure { s with total := s.total + dataInt x, cur := some d }
   | .histogram => do
     -- data, self._cur_context = lena.flow.get_data_context(value)
     let c ← getCtx ns x
@@ -699,6 +736,30 @@ def accCompute (ns : Nat) (k : AccKind) (s : AccSt) : M (AccSt × Resp Skel) :=
     -- yield (hist, copy.deepcopy(cur_context))
     let d ← copyM ns c
     pure ({ s with cur := some c }, { outs := [mkItem (.str "hist") (some d)] })
+  | .meanCounts names =>
+    if s.count = 0 then pure (s, { err := some "LenaZeroDivisionError" })
+    else do
+      let c ← curTok ns s
+      -- context = copy.deepcopy(self._cur_context); yield _maybe_with_context(mean, context)
+      let d ← copyM ns c
+      let first ← maybeWithContext (.quot s.total s.count) d
+      -- for sval in sums[1:]: context = copy.deepcopy(self._cur_context); update_recursively(context, scont); yield
+      let r ← yieldCounts ns c s.count names
+      pure ({ s with cur := some c }, { outs := first :: r })
+  | .vecMulti k =>
+    -- the inner Mean raises when nothing was filled
+    if s.count = 0 then pure (s, { err := some "LenaZeroDivisionError" })
+    else do
+      -- while True: data = next(it) …; yield _maybe_with_context(res, copy.deepcopy(self._cur_context))
+      let c ← curTok ns s
+      let ys ← yieldCopies ns c (maybeWithContext (.str "vec")) k
+      pure ({ s with cur := some c }, { outs := ys })
+  | .sibMulti var _ _ k => do
+    let c ← curTok ns s
+    updM c (setVariable var)
+    -- while True: result = next(generators) …; yield (hist, copy.deepcopy(cur_context))
+    let ys ← yieldCopies ns c (fun d => pure (mkItem (.str "hist") (some d))) k
+    pure ({ s with cur := some c }, { outs := ys })
   | .vecList =>
     -- zip_longest(Sum.compute(), Mean.compute()): Mean raises when nothing was filled
     if s.count = 0 then pure (s, { err := some "LenaZeroDivisionError" })
